@@ -16,7 +16,7 @@ RULE = ("random circuits: 1-6 (thorough 1-10) components with 1-4 ports, dyadic 
         "a stream with an exactly resonant first pair; distinct = distinct circuit description; non-trivial = at "
         "least two components and one link")
 TRUSTED = ["numpy global reference solve (oracle) and its conditioning estimate",
-           "Gauss-Jordan completeness in Mat.inv? (soundness is certified per call)"]
+           "the Lean runtime executing the driver (GMP rationals); Mat.inv? itself is proved sound and complete (Mat.inv?_isSome_iff)"]
 ASSUMPTIONS = ["every merge step's inner system is invertible (otherwise the code raises LinAlgError: checked as outcome class)",
                "component matrices are exact dyadic rationals so model and implementation receive identical inputs"]
 EXPLANATION = ("C01_solve_solves: for every well-formed network, exposure and schedule the executable solve returns the "
